@@ -366,6 +366,40 @@ def run(repo: Repo, chk: Check) -> None:
         chk.ob('R-PAIR', f.qualname, ok, 'zarith bit layout', f.loc, {'masks': sorted(masks), 'shifts': sorted(shifts)},
                what=f'{name} uses masks {sorted(map(hex, masks))} / shifts {sorted(shifts)}; Zarith layout needs '
                     f'{sorted(map(hex, need_masks))} / {sorted(need_shifts)}')
+    # group-boundary guards of the integer writers: a comparison of the remaining magnitude with a constant decides "one more group or not";
+    # as a half-line over the integers its boundary must be a group boundary: 0 (sign test), 1 (non-zero), 2^6 (first group) or 2^7.
+    # `> 0x80`, `>= 0x7f`, `> 64` ... put one value on the wrong side: that value is written one group short / with a dangling continuation bit.
+    for name in ('forge_int', 'forge_nat'):
+        f = repo.func(f'{FORGE}.{name}')
+        for g in repo.with_fresh_callees(f):
+            for n in ast.walk(g.node):
+                if not (isinstance(n, ast.Compare) and len(n.ops) == 1):
+                    continue
+                l, r = n.left, n.comparators[0]
+
+                def const(x, g=g):
+                    try:
+                        v = repo.fold(x, g.module)
+                    except Exception:
+                        return None
+                    return v if isinstance(v, int) and not isinstance(v, bool) else None
+
+                cl, cr = const(l), const(r)
+                if (cl is None) == (cr is None):
+                    continue
+                other, c, op = (r, cl, type(n.ops[0]).__name__) if cl is not None else (l, cr, type(n.ops[0]).__name__)
+                if cl is not None:
+                    op = {'Lt': 'Gt', 'LtE': 'GtE', 'Gt': 'Lt', 'GtE': 'LtE'}.get(op, op)
+                if any(isinstance(x, (ast.Subscript, ast.Call)) for x in ast.walk(other)):
+                    continue  # bytes of the buffer / lengths, not the magnitude
+                if op in ('Eq', 'NotEq'):
+                    boundary = c + 1 if c == 0 else None   # x != 0 / x == 0: non-zero test; equality with another constant is not a half-line
+                else:
+                    boundary = {'Gt': c + 1, 'GtE': c, 'Lt': c, 'LtE': c + 1}.get(op)
+                chk.ob('R-GUARD', g.qualname, boundary in (0, 1, 64, 128), f'magnitude guard `{norm(n)[:50]}` splits at a group boundary', f'{g.module.relpath}:{n.lineno}',
+                       {'boundary': boundary, 'allowed': [0, 1, 64, 128]},
+                       what=f'{name}: the guard `{norm(n)[:60]}` separates the integers at {boundary}, which is not 0, 1, 2^6 or 2^7: the value {boundary - 1 if boundary else "?"} or '
+                            f'{boundary} is encoded with the wrong number of 7-bit groups')
     chk.note('decoder_tags_enumerated', 256)
     chk.note('encoder_shapes', len(enc))
 
